@@ -106,8 +106,8 @@ def discharge(ob, timeout_s=10.0, use_fallbacks=True):
         r2 = _z3old_check(smt2, timeout_s)
         if r2 == 'unsat':
             return dict(verdict='discharged', backend='z3-4.8.12', time=time.time() - t0, model=None)
-        if r == 'sat' or r2 == 'sat':
-            return dict(verdict='refuted', backend='cvc5' if r == 'sat' else 'z3-4.8.12', time=time.time() - t0, model=None)
+        # a `sat` of a fallback solver carries no model we can replay (and the SMT-LIB rendering of lambdas / patterns is not
+        # trusted for refutation): it stays `unknown`
     return dict(verdict='unknown', backend='z3,cvc5,z3-4.8.12' if use_fallbacks else 'z3', time=time.time() - t0, model=None)
 
 
